@@ -7,6 +7,9 @@
 #include <streambuf>
 #include <istream>
 #include <ostream>
+#include <fstream>
+#include <cstdio>
+#include <unistd.h>
 #include "bitserializer/bit_serializer.h"
 #include "bitserializer/rapidjson_archive.h"
 #include "bitserializer/pugixml_archive.h"
@@ -49,7 +52,7 @@ class NonSeekableBuf : public ShortReadBuf { public: using ShortReadBuf::ShortRe
 
 // ---- configuration ------------------------------------------------------------------------------------------------------
 struct Cfg {
-	bool stream = false; int streamKind = 0;   // 0 = stringstream, 1 = short-read seekable, 2 = non-seekable
+	bool stream = false; int streamKind = 0;   // 0 = stringstream, 1 = short-read seekable, 2 = non-seekable, 3 = file (SaveObjectToFile / LoadObjectFromFile)
 	size_t chunk = 7;
 	SerializationOptions opt;
 	std::string str() const {
@@ -62,9 +65,14 @@ inline void gen_policies(vf::Src& s, SerializationOptions& o) {
 	o.overflowNumberPolicy = s.coin() ? OverflowNumberPolicy::Skip : OverflowNumberPolicy::ThrowError;
 	o.mismatchedTypesPolicy = s.coin() ? MismatchedTypesPolicy::Skip : MismatchedTypesPolicy::ThrowError;
 }
+// kind of stream: stringstream, short-read seekable, non-seekable (only where the reader need not seek: the text archives read the whole stream), file
+inline int gen_stream_kind(vf::Src& s, bool seekRequired) { int k = static_cast<int>(s.draw(4)); return (k == 2 && seekRequired) ? 3 : k; }
+// scratch file of this process (forked children get their own)
+inline std::string scratch_file() { const char* d = getenv("TMPDIR"); return vf::cat(d && *d ? d : "/tmp", "/vf_scratch_", static_cast<long>(getpid()), ".dat"); }
+struct ScratchFile { std::string path = scratch_file(); ~ScratchFile() { std::remove(path.c_str()); } };
 // output configuration for text archives (encoding/BOM/format) and stream-vs-memory
 inline Cfg gen_cfg(vf::Src& s, int archId, bool allowStream = true) {
-	Cfg c; c.stream = allowStream && s.coin(); c.streamKind = c.stream ? static_cast<int>(s.draw(2)) : 0; c.chunk = 1 + s.draw(40);
+	Cfg c; c.stream = allowStream && s.coin(); c.streamKind = c.stream ? gen_stream_kind(s, archId == MSGPACK) : 0; c.chunk = 1 + s.draw(40);
 	if (archId != MSGPACK) {
 		if (c.stream) { c.opt.streamOptions.encoding = static_cast<Convert::Utf::UtfType>(s.draw(5)); c.opt.streamOptions.writeBom = s.coin(); }
 		if (archId == JSON || archId == XML) { c.opt.formatOptions.enableFormat = s.coin(); if (c.opt.formatOptions.enableFormat) { c.opt.formatOptions.paddingChar = s.coin() ? ' ' : '\t'; c.opt.formatOptions.paddingCharNum = static_cast<uint16_t>(archId == XML ? 1 + s.draw(8) : s.draw(9)); } }   // XML asserts a non-empty indent (documented precondition)
@@ -97,7 +105,13 @@ template <class F> Outcome capture(F&& f) {
 // ---- save / load through the public API under a configuration ----------------------------------------------------------------
 template <class A, class T> Outcome save(const T& value, std::string& bytes, const Cfg& c) {
 	return capture([&] {
-		if (c.stream) { std::ostringstream os; SaveObject<A>(const_cast<T&>(value), os, c.opt); bytes = os.str(); }
+		if (c.stream && c.streamKind == 3) {
+			// file medium, second use of the path: the file already holds longer stale content, overwrite = true must replace it entirely
+			ScratchFile f; { std::ofstream pre(f.path, std::ios::binary | std::ios::trunc); pre << std::string(2048 + 40 * c.chunk, 'Z'); }
+			SaveObjectToFile<A>(const_cast<T&>(value), f.path, c.opt, true);
+			std::ifstream in(f.path, std::ios::binary); std::ostringstream os; os << in.rdbuf(); bytes = os.str();
+		}
+		else if (c.stream) { std::ostringstream os; SaveObject<A>(const_cast<T&>(value), os, c.opt); bytes = os.str(); }
 		else { bytes.clear(); SaveObject<A>(const_cast<T&>(value), bytes, c.opt); }
 	});
 }
@@ -106,6 +120,7 @@ template <class A, class T> Outcome load(T& value, const std::string& bytes, con
 		if (!c.stream) { LoadObject<A>(value, bytes, c.opt); return; }
 		if (c.streamKind == 0) { std::istringstream is(bytes); LoadObject<A>(value, is, c.opt); }
 		else if (c.streamKind == 1) { ShortReadBuf b(bytes, c.chunk); std::istream is(&b); LoadObject<A>(value, is, c.opt); }
+		else if (c.streamKind == 3) { ScratchFile f; { std::ofstream out(f.path, std::ios::binary | std::ios::trunc); out.write(bytes.data(), static_cast<std::streamsize>(bytes.size())); } LoadObjectFromFile<A>(value, f.path, c.opt); }
 		else { NonSeekableBuf b(bytes, c.chunk); std::istream is(&b); LoadObject<A>(value, is, c.opt); }
 	});
 }
